@@ -456,7 +456,8 @@ impl<'a> Dbg<'a> {
                 let Some((_, addr)) = self.symbols.iter().find(|(n, _)| n == name) else {
                     return Effect::Refused("unknown label");
                 };
-                let delta = *addr as i64 - pc as i64;
+                // address arithmetic is modulo 2^16: the field must reach the label after wrapping
+                let delta = addr.wrapping_sub(pc) as i16 as i64;
                 let lo = -(1i64 << (bits - 1));
                 let hi = (1i64 << (bits - 1)) - 1;
                 if delta < lo || delta > hi {
